@@ -52,7 +52,7 @@ def make_spec(r, op, method, quick, force=None):
     force = force or {}
     kind = force.get("kind") or r.choice(KINDS)
     D = force.get("D") or (r.choice([2, 3, 3, 4, 6]) if kind not in ("roll", "curve") else r.choice([3, 3, 4]))
-    d = force.get("d") or r.choice([1, 2, 2, 3, 4] if method != "hlle" else [1, 2, 2, 2, 3])
+    d = force.get("d") or r.choice([1, 2, 2, 3, 4] if method != "hlle" else [1, 2, 2, 3, 3, 4])
     if kind == "grid":
         D = max(D, 2)
     Nmax = 40 if quick else 64
@@ -228,15 +228,22 @@ def replay_case(ctx, binary, line):
 
 
 def hlle_index_leg(ctx):
-    """second tie for the HLLE index arithmetic: the generated recurrence evaluated by the model for every d <= 8"""
-    import subprocess
-    lines = ["op=hlleidx d=%d" % d for d in range(0, 9)]
+    """the generated recurrence evaluated by the model for every d <= 8 (recorded in the evidence; must be the
+    consecutive range [1+d, 1+d+d(d+1)/2) — the statement of the theorem hlle_cols_bijective, re-checked by running)"""
+    lines = ["op=hlleidx N=1 d=%d" % d for d in range(0, 9)]
     rc, out, err = ctx.run_model("model_c08", lines)
     ctx.extra["hlle_written_columns"] = dict(zip(["d=%d" % d for d in range(0, 9)], out))
+    for d, o in zip(range(0, 9), out):
+        want = "res=ok cols=" + ",".join(str(c) for c in range(1 + d, 1 + d + d * (d + 1) // 2)) + " err=none"
+        ctx.count("hlleidx d=%d" % d, True)
+        if o != want:
+            ctx.broken("hlle-index:d=%d" % d, "generated HLLE index recurrence (Gen/HlleIndex.lean) evaluated at d=%d" % d,
+                       "written product columns for target_dimension=%d are %s, expected %s" % (d, o, want), case=lines[d])
 
 
 def correspond(ctx):
-    binary, log = ctx.build_harness("c08_ll.cpp", extra=["-DV0810_HASH=" + _ll.hdr_hash()], flags=_ll.harness_flags())
+    binary, log = ctx.build_harness("c08_ll.cpp", name=_ll.harness_name("c08_ll.cpp"), extra=["-DV0810_HASH=" + _ll.hdr_hash()],
+                                    flags=_ll.harness_flags())
     t_built = ctx_elapsed(ctx)
     if not binary:
         ctx.broken("harness-build", "harness c08_ll.cpp", "harness does not compile against the repository: " + log[-1500:])
@@ -246,6 +253,7 @@ def correspond(ctx):
         return
     r = ctx.rng
     quick = ctx.tier == "quick"
+    hlle_index_leg(ctx)
     # corpus first
     cdir = os.path.join(vlib.ROOT, "corpus", "C08")
     if os.path.isdir(cdir):
